@@ -1,6 +1,11 @@
 """History generator for the registry properties (C05, C06)."""
 
-def gen_history(rng, nops, nthreads=None, f2=False, reentry=0.05):
+import re
+def model_case(case):
+    """`pg t j` (a guard dropped by unwinding) is `en t j ; ex t j` to the model and the specification"""
+    return re.sub(r'pg (\d+) (\d+)', r'en \1 \2 ; ex \1 \2', case)
+
+def gen_history(rng, nops, nthreads=None, f2=False, reentry=0.05, unwind=True):
     nthreads = nthreads or rng.choice([1, 1, 2, 3])
     ops = []
     handles = {}          # span -> handles held by the program (not counting guards)
@@ -28,6 +33,9 @@ def gen_history(rng, nops, nthreads=None, f2=False, reentry=0.05):
             j = rng.choice(live)
             if j in entered[t] and rng.random() > reentry:
                 continue
+            if unwind and rng.random() < 0.2 and dflt[t] == 'own':
+                # a real `Entered` guard dropped by a caught panic: enter and exit in one executor operation
+                ops.append('pg %d %d' % (t, j)); continue
             ops.append('en %d %d' % (t, j)); entered[t].append(j); guards[(t, j)] = guards.get((t, j), 0) + 1
         elif r < 0.78 and entered[t]:
             # biased to out-of-order exits deep in the stack
